@@ -623,10 +623,10 @@ def _run_bindings(ctx, rng, quick, pool):
     t1 = time.time()
     names = genes_mod.shipped_names()
     if quick:
-        core = ["cyp2d6", "nat1", "cyp2c19", "cyp2c8", "cyp3a5", "nudt15", "ugt1a1", "tpmt", "cyp2a6", "g6pd", "cftr", "slco1b1"]
-        rest = [n for n in names if n not in core and n not in ("dpyd", "ryr1")]
+        core = ["cyp2d6", "nat1", "cyp2c19", "cyp2c8", "cyp3a5", "nudt15", "ugt1a1", "tpmt", "cyp2a6", "g6pd", "cyp2c9", "slco1b1"]
+        rest = [n for n in names if n not in core and n not in ("dpyd", "ryr1", "cftr", "abcg2")]
         chosen_genes = core + rng.sample(rest, 3)
-        per_gene = 7
+        per_gene = 6
     else:
         chosen_genes = names
         per_gene = 10 ** 9
@@ -661,7 +661,7 @@ def _run_bindings(ctx, rng, quick, pool):
         # genotype() costs ~1 s per 20 kb of gene region (four passes over every site): cap the calls per gene
         size = gene.get_wide_region().end - gene.get_wide_region().start
         if quick:
-            call_cap = 5 if size < 30000 else (3 if size < 65000 else (1 if size < 120000 else 0))
+            call_cap = 4 if size < 30000 else (2 if size < 65000 else (1 if size < 120000 else 0))
         else:
             call_cap = max(6, int(250 / max(1.0, size / 20000.0)))
         calls = 0
